@@ -61,6 +61,7 @@ func NewSecure[Pub any](m map[string]DynSecureSwarm[Pub]) p2p.SecureSwarm[Addr, 
 func NewSecureAsk[Pub any](m map[string]DynSecureAskSwarm[Pub]) p2p.SecureAskSwarm[Addr, Pub] {
 	ms := newMultiSwarm(convertSecureAsk(m))
 	ma := newMultiAsker(map[string]p2p.AskSwarm[p2p.Addr]{})
+	ms.onClose = func() { ma.asks.CloseWithError(p2p.ErrClosed) }
 	msec := multiSecure[Pub]{}
 
 	for name, s := range m {
@@ -86,6 +87,8 @@ type multiSwarm struct {
 	addrSchema AddrSchema
 	swarms     map[string]DynSwarm
 	tells      swarmutil.TellHub[Addr]
+	// onClose is called by Close, after the transports have been closed.
+	onClose func()
 }
 
 func newMultiSwarm(m map[string]DynSwarm) *multiSwarm {
@@ -171,6 +174,9 @@ func (mt *multiSwarm) Close() error {
 		}
 	}
 	mt.tells.CloseWithError(p2p.ErrClosed)
+	if mt.onClose != nil {
+		mt.onClose()
+	}
 	return err
 }
 
